@@ -769,7 +769,120 @@ pub fn families(tier: &str) -> Vec<Box<dyn Family>> {
     }
     fams.push(Fam { name: "truncation-with-neighbour", cases: tn });
 
-    fams.into_iter().map(|f| Box::new(f) as Box<dyn Family>).collect()
+    let mut v: Vec<Box<dyn Family>> = fams.into_iter().map(|f| Box::new(f) as Box<dyn Family>).collect();
+    v.push(Box::new(SameExecutableTwice));
+    v
+}
+
+
+// ------------------------------------------------------------------------------------------------------------
+// The same executable configured more than once: every -G is a run of its own, with its own arguments.
+
+pub struct SameExecutableTwice;
+const SET_LISTS: [&[(&str, &str)]; 4] = [&[], &[("a", "1")], &[("a", "2"), ("b", "")], &[("a", "1")]];
+impl Family for SameExecutableTwice {
+    fn name(&self) -> String {
+        "same-executable-more-than-once/one executable named by 2 or 3 -G options with different (and with equal) argument lists, healthy and failing with exit status 1, x all orders: one run per option, each receiving the request followed by ITS arguments".into()
+    }
+    fn len(&self) -> u64 {
+        // 2 or 3 options: all ordered selections of argument lists x {healthy, exit 1}
+        (4 * 4 + 4 * 4 * 4) * 2
+    }
+    fn hang_secs(&self) -> f64 {
+        60.0
+    }
+    fn describe(&self, idx: u64) -> Value {
+        let (lists, failing) = Self::decode(idx);
+        json!({"argument_lists_in_order": lists.iter().map(|l| SET_LISTS[*l]).collect::<Vec<_>>(), "generator_exits_with_status_1": failing})
+    }
+    fn run(&self, idx: u64) -> CaseOut {
+        let (lists, failing) = Self::decode(idx);
+        let mut out = CaseOut::new(hash_str(&format!("set{idx}")));
+        out.validated = 1;
+        out.nontrivial = true;
+        let file = proc::rfile("same.txt", "written by the generator\n");
+        let reply = proc::encode_reply(&[file.clone()], &[]);
+        let mut sc = Scenario::default();
+        sc.tree.push(("a.slice".into(), Node::File(SMALL_INPUT.as_bytes().to_vec())));
+        sc.gens.push(Gen { name: "gen".into(), install: Install::Script(Script(vec![Step::ReadAll, Step::Stdout(reply), Step::Exit(if failing { 1 } else { 0 })])) });
+        sc.argv = vec!["a.slice".into()];
+        let mut expected_tail_parts: Vec<Vec<u8>> = vec![];
+        for l in &lists {
+            let args: Vec<(String, String)> = SET_LISTS[*l].iter().map(|(k, v)| (k.to_string(), v.to_string())).collect();
+            sc.argv.push("-G".into());
+            sc.argv.push(proc::gen_spec("{gen0}", &args));
+            expected_tail_parts.push(proc::encode_arguments(&args));
+        }
+        let obs = proc::run(&sc, Duration::from_secs(20));
+        let ctx = || format!("argv {:?}; exit {:?}; stderr {}", obs.argv, obs.exit_code, truncate(&proc::show_bytes(&obs.stderr), 500));
+        if obs.timed_out || obs.signal.is_some() || obs.panic_location().is_some() {
+            out.violate("c18/same-executable/crash-or-hang", ctx());
+            return out;
+        }
+        let g = &obs.gens[0];
+        let n = lists.len();
+        if g.started as usize != n {
+            out.violate("c18/same-executable/number-of-runs", format!("{n} -G options name the executable but it was started {} time(s). {}", g.started, ctx()));
+            return out;
+        }
+        // what it read, over all its runs (they are sequential): request ++ arguments, once per option, in order
+        let all = g.stdin.clone().unwrap_or_default();
+        let args_total: usize = expected_tail_parts.iter().map(|p| p.len()).sum();
+        if all.len() < args_total || (all.len() - args_total) % n != 0 {
+            out.violate("c18/same-executable/arguments", format!("the {n} runs read {} bytes in total, which is not {n} x request + the {args_total} bytes of their argument lists. {}", all.len(), ctx()));
+            return out;
+        }
+        let req_len = (all.len() - args_total) / n;
+        // (the generators of one run are started in parallel, so the runs of this one executable append what they
+        // read in any order: some order of the options must explain the bytes)
+        let perms: Vec<Vec<usize>> = if n == 2 { vec![vec![0, 1], vec![1, 0]] } else { vec![vec![0, 1, 2], vec![0, 2, 1], vec![1, 0, 2], vec![1, 2, 0], vec![2, 0, 1], vec![2, 1, 0]] };
+        let explains = |perm: &Vec<usize>| -> bool {
+            let mut at = 0;
+            let mut first_req: Option<&[u8]> = None;
+            for i in perm {
+                let tail = &expected_tail_parts[*i];
+                let req = &all[at..at + req_len];
+                if &all[at + req_len..at + req_len + tail.len()] != &tail[..] {
+                    return false;
+                }
+                at += req_len + tail.len();
+                match first_req {
+                    None => first_req = Some(req),
+                    Some(f) if f != req => return false,
+                    _ => {}
+                }
+            }
+            true
+        };
+        if !perms.iter().any(explains) {
+            out.violate("c18/same-executable/arguments", format!("the bytes the {n} runs read are not, in any order of the options, '{req_len}-byte request + the arguments of one option' for each of {:?} with one and the same request. {}", lists.iter().map(|l| SET_LISTS[*l]).collect::<Vec<_>>(), ctx()));
+            return out;
+        }
+        let errors = obs.error_lines();
+        if failing {
+            if obs.exit_code == Some(0) || errors.len() != n {
+                out.violate("c18/same-executable/failures-reported", format!("each of the {n} runs exits with status 1: {n} errors and a non-zero exit status are expected; {} error line(s). {}", errors.len(), ctx()));
+            }
+        } else if obs.exit_code != Some(0) || !errors.is_empty() {
+            out.violate("c18/same-executable/healthy-runs-rejected", ctx());
+        } else if obs.after.get("same.txt").map(|e| e.contents.clone()) != Some(file.contents.clone().into_bytes()) {
+            out.violate("c18/same-executable/file-not-written", ctx());
+        }
+        out.class = format!("{n}-runs:{}", if failing { "failing" } else { "healthy" });
+        out
+    }
+}
+impl SameExecutableTwice {
+    fn decode(idx: u64) -> (Vec<usize>, bool) {
+        let failing = idx % 2 == 1;
+        let k = idx / 2;
+        if k < 16 {
+            (vec![(k % 4) as usize, (k / 4) as usize], failing)
+        } else {
+            let k = k - 16;
+            (vec![(k % 4) as usize, ((k / 4) % 4) as usize, (k / 16) as usize], failing)
+        }
+    }
 }
 
 // ------------------------------------------------------------------------------------------------------------
